@@ -1,7 +1,9 @@
 import Driver.Util
 import Driver.Nflog
+import Driver.NflogRace
 namespace Driver.Reg.Core
 def engines : List (String × IO UInt32) := [
-  ("nflog", Driver.runEngine Driver.Nflog.engine)
+  ("nflog", Driver.runEngine Driver.Nflog.engine),
+  ("nflograce", Driver.runEngine Driver.NflogRace.engine)
 ]
 end Driver.Reg.Core
